@@ -13,6 +13,8 @@
      demod      [a, b, lab, shapeok]                demodulate(samples): samples (a[c], b[c]) on the
                 rational grid of resolution d (see ConstellationOps.Metric), returned labels
      roundtrip  [idx, lab, shapeok]                 demodulate(modulate(idx))
+     copy       [how, out, tab, tabok, scale, scaleok, mok]   a copy of the object made by `how` (pickle round trip,
+                copy.copy, copy.deepcopy): its recorded table / scale, mok: it reports the same M and K
      recheck    [of, now, nowok]                    the object RETURNED by event number `of` (a mod, demod
                 or roundtrip event whose result the caller kept by reference) read again after later
                 calls: now = its present contents in the coordinates of that event
@@ -33,6 +35,7 @@
      demod      every sample with a unique nearest point: lab = the label the CURRENT table gives
                 that point; shape kept
      roundtrip  lab = idx
+     copy       CopyIsEqual: the copy can be made and has the table and scale of the original at that moment
      recheck    EarlierResultsUnchanged: now = what event `of` returned (pts resp. lab)
      all calls  ArgumentsUnchanged (argsok), ResultNotAliased (ownok), RejectedChangesNothing (frameok)
    Each step appends the mismatches of its event to mm and emits one VCASE line
@@ -188,6 +191,15 @@ DoRecheck(t, e) ==
      /\ checked' = Len(then)
      /\ UNCHANGED <<g, tab, inv, scale, good, params>>
 
+\* CopyIsEqual: a pickled / copied object is the same modulator
+DoCopy(t, e) ==
+  /\ mm' = IF e.out # "ok" THEN <<Mis("CopyIsEqual", "none", 0, "a copy", e.out)>>
+           ELSE IF ~e.tabok \/ ~e.mok \/ e.tab # tab THEN <<Mis("CopyIsEqual", "none", 0, "the table of the original", e.how)>>
+           ELSE IF ~e.scaleok \/ e.scale # scale THEN <<Mis("CopyIsEqual", "none", 1, scale, e.scale)>>
+           ELSE <<>>
+  /\ checked' = 2
+  /\ UNCHANGED <<g, tab, inv, scale, good, params>>
+
 \* events after a table that could not be used are reported once as unchecked
 Skip(e) == /\ mm' = <<Mis("Unchecked", "none", 0, "a usable table", e.op)>> /\ checked' = 0
            /\ UNCHANGED <<g, tab, inv, scale, good, params>>
@@ -206,6 +218,7 @@ Event ==
           [] e.op = "demod"     -> IF good THEN DoDemod(t, e) ELSE Skip(e)
           [] e.op = "roundtrip" -> IF good THEN DoRoundTrip(t, e) ELSE Skip(e)
           [] e.op = "recheck"   -> DoRecheck(t, e)
+          [] e.op = "copy"      -> IF good THEN DoCopy(t, e) ELSE Skip(e)
 
 Next == Pick \/ Event
 
